@@ -437,6 +437,34 @@ def arg_universe(n, cls, names, tier_small=True):
     return ops
 
 
+UNHEALTHY = []          # histories found by `explore` whose final store is not a forest (real code misbehaving)
+MAX_EXPLORE_STATES = 20000
+
+
+def is_forest(nodes) -> bool:
+    """every child list is duplicate-free, every listed child names that node as its parent, every
+    non-root is listed by its parent (a BFS over anything else does not terminate)"""
+    if not healthy(nodes):
+        return False
+    for x in nodes:
+        ch = list(x.children)
+        if len({id(c) for c in ch}) != len(ch):
+            return False
+        if any(c.parent is not x for c in ch):
+            return False
+        if x.parent is not None and not any(c is x for c in x.parent.children):
+            return False
+    return True
+
+
+def drain_unhealthy(cls=None):
+    """cases for the histories on which the exploration left the space of forests (the tie and the
+    oracle then report them instead of the exploration running away)"""
+    out = [d for d in UNHEALTHY if cls is None or d["cls"] == cls]
+    UNHEALTHY[:] = [d for d in UNHEALTHY if d not in out]
+    return out
+
+
 def explore(cls, n, names, sep, universe):
     """all stores reachable from n fresh nodes through accepted calls, each with one access history
     (breadth first, on the real objects)"""
@@ -453,8 +481,12 @@ def explore(cls, n, names, sep, universe):
                 nodes = make_nodes(d)
                 for o in d["ops"]:
                     apply_op(nodes, o)
-                if not healthy(nodes):
+                if not is_forest(nodes):
+                    if len(UNHEALTHY) < 200:
+                        UNHEALTHY.append(d)
                     continue
+                if len(paths) > MAX_EXPLORE_STATES:
+                    raise RuntimeError(f"state exploration on the real code exceeded {MAX_EXPLORE_STATES} stores for n={n}")
                 s2 = tuple((p, tuple(ch)) for p, ch in snap(nodes))
                 if s2 not in paths:
                     paths[s2] = paths[st] + [op]
